@@ -1,7 +1,7 @@
 (* Properties_C09.v — property C09: suggested code is valid Go and applying a fix never damages the
    file.  Theorem-level part: the edit algebra, the comment fix, the Suggest-template table.
    "Still parses and type-checks" for arbitrary programs is decided by the oracle only (DESIGN.md §9). *)
-From GC Require Import Base Model_Cli Model_Edit Proofs_Edit Model_Prec Proofs_Prec.
+From GC Require Import Base Model_Cli Model_Edit Proofs_Edit Model_Prec Proofs_Prec Model_PrecParse Proofs_PrecParse.
 From GCgen Require Import SuggestTable PrecTable.
 
 (* Applying a fix changes nothing outside its range, for every file, range and replacement. *)
@@ -127,6 +127,37 @@ Theorem C09_concat_template_regroups_refuted :
   /\ concat_actual <> concat_intended.
 Proof. exact concat_regroups. Qed.
 Print Assumptions C09_concat_template_regroups_refuted.
+
+(* ---- the parser: precedence climbing as go/parser does it (Model_PrecParse, tied to go/parser + go/scanner on
+   generated expressions every run) ---- *)
+
+(* the parser reads the printed tokens of every good, well-precedenced closed tree back as that very tree, at every
+   precedence the tree is tight enough for, whatever follows it, provided what follows cannot continue the expression;
+   "enough fuel" is explicit: running out of fuel is the error value None *)
+Theorem C09_parser_reads_printed_tree : forall t q rest, good t = true -> wp g0 t = true ->
+  1 <= q -> q <= level g0 t -> nosuffix rest = true -> bp_head rest < q ->
+  exists f0, forall f, f0 <= f -> parse_bin f q (pp t ++ rest)%list = Some (t, rest).
+Proof. exact parse_print. Qed.
+Print Assumptions C09_parser_reads_printed_tree.
+
+(* end to end: under the two table conditions, the text a fix produces in ANY context that accepted the match is parsed
+   to exactly the tree the template denotes (no appeal to unambiguity of the grammar) *)
+Theorem C09_fixed_text_parses_to_intended_tree : forall g s pat tpl ctx,
+  respects g g0 s -> wp g tpl = true -> level g pat <= level g tpl ->
+  wp (fun y => if String.eqb y "@" then level g pat else 0) ctx = true ->
+  good (subst (hole_sub "@" (subst s tpl)) ctx) = true ->
+  exists f0, forall f, f0 <= f ->
+    parse_expr f (tsubst (hole_sub "@" (subst s tpl)) (pp ctx)) = Some (subst (hole_sub "@" (subst s tpl)) ctx).
+Proof. exact fixed_text_parses_to_intended_tree. Qed.
+Print Assumptions C09_fixed_text_parses_to_intended_tree.
+
+(* and the unsafe pairs, decided by the parser itself: the rendered text parses to the unintended tree *)
+Theorem C09_unsafe_pairs_parse_to_other_tree_refuted :
+  parse_expr 40 (tsubst sprint_sub (pp sprint_tpl)) = Some sprint_actual /\ sprint_actual <> sprint_intended
+  /\ parse_expr 40 (tsubst (hole_sub "@" (subst concat_sub concat_tpl)) (pp (EApp (EHole "@") "[" "]" [EAtom "1"])))
+      = Some (EBin 4 "+" (EAtom "a") (EApp (EAtom "b") "[" "]" [EAtom "1"])).
+Proof. vm_compute. repeat split; try reflexivity. discriminate. Qed.
+Print Assumptions C09_unsafe_pairs_parse_to_other_tree_refuted.
 
 (* non-vacuity: a safe pair of the table with a concrete binding and context *)
 Example C09_example_prec :
